@@ -1,6 +1,6 @@
 (* Extract/Extract.v — extraction of the executable models and specifications to OCaml.
    ExtrOcamlBasic only: ascii, nat, N, Z, positive stay the extracted inductives. *)
-From CV Require Import Base.Str Model.ShellValue Spec.FmtOracle Run.Fields Run.RunMultiParts Run.RunAlgebra Run.RunImport Run.RunCache Run.RunCrash Run.RunHistory Run.RunTimeout Run.RunSplit Run.RunFiles Run.RunSlot Run.RunNames Run.RunBridge.
+From CV Require Import Base.Str Model.ShellValue Spec.FmtOracle Run.Fields Run.RunMultiParts Run.RunAlgebra Run.RunImport Run.RunCache Run.RunCrash Run.RunHistory Run.RunTimeout Run.RunSplit Run.RunFiles Run.RunSlot Run.RunNames Run.RunBridge Run.RunTree.
 Require Import ExtrOcamlBasic.
 
 Definition n_value := B [118;97;108;117;101].                           (* value *)
@@ -28,7 +28,9 @@ Definition runners : list (str * (list str -> list str)) :=
     (B [102;105;108;101;115], run_files);                                                               (* files *)
     (B [115;108;111;116], run_slot);                                                                    (* slot *)
     (B [110;97;109;101;115;95;111;114;97;99;108;101], run_names_oracle);                                (* names_oracle *)
-    (B [98;114;105;100;103;101;95;111;114;97;99;108;101], run_bridge_oracle)                            (* bridge_oracle *)
+    (B [98;114;105;100;103;101;95;111;114;97;99;108;101], run_bridge_oracle);                           (* bridge_oracle *)
+    (B [116;114;101;101], run_tree);                                                                    (* tree *)
+    (B [116;114;101;101;95;111;114;97;99;108;101], run_tree_oracle)                                     (* tree_oracle *)
   ].
 
 Fixpoint lookup_runner (name : str) (t : list (str * (list str -> list str))) : option (list str -> list str) :=
